@@ -910,3 +910,130 @@ func flushTest(t *testing.T, prop string) {
 }
 
 func TestVerifC08(t *testing.T) { flushTest(t, "C08") }
+
+// ------------------------------------------------------------------ C04, hand-off half (E2)
+
+// TestVerifC04 drives both directions of one connection under generated schedules: the writer side
+// through the flush scenario (no timeouts, no concurrent flusher: the guarantee covers a connection up to
+// its first write error) and the reader side through the read scenario; the oracle is the position-keyed stream.
+func TestVerifC04(t *testing.T) {
+	st := newStats("C04")
+	defer st.write()
+	if vReplay != "" {
+		var probe struct {
+			Scenario struct {
+				Calls []struct {
+					API string `json:"api"`
+				} `json:"calls"`
+			} `json:"scenario"`
+		}
+		vLoadReplay(&probe)
+		if len(probe.Scenario.Calls) > 0 && probe.Scenario.Calls[0].API != "" {
+			var rec struct {
+				Scenario  flushScn  `json:"scenario"`
+				Decisions []vs.Step `json:"decisions"`
+			}
+			vLoadReplay(&rec)
+			rec.Scenario.Prop = "C04"
+			o := runFlush(nil, rec.Scenario, rec.Decisions)
+			defer o.w.close()
+			st.eval()
+			if sig, msg := judgeFlush(rec.Scenario, o); sig != "" {
+				vReport(vViolation{Property: "C04", Slot: "replay:C04", Signature: sig, Message: msg, Replay: e2Replay{Scenario: rec.Scenario, Decisions: o.w.trace()}})
+				t.Fatalf("C04 violated [%s]: %s", sig, msg)
+			}
+			return
+		}
+		var rec struct {
+			Scenario  readScn   `json:"scenario"`
+			Decisions []vs.Step `json:"decisions"`
+		}
+		vLoadReplay(&rec)
+		o := runRead(nil, rec.Scenario, rec.Decisions)
+		defer o.w.close()
+		st.eval()
+		if sig, msg := judgeRead(rec.Scenario, o); sig != "" {
+			vReport(vViolation{Property: "C04", Slot: "replay:C04", Signature: sig, Message: msg, Replay: e2Replay{Scenario: rec.Scenario, Decisions: o.w.trace()}})
+			t.Fatalf("C04 violated [%s]: %s", sig, msg)
+		}
+		return
+	}
+	excl := vExclusions()
+	rapid.Check(t, func(t *rapid.T) {
+		if rapid.Bool().Draw(t, "direction-write") {
+			s := genFlushScn(t, "C04")
+			s.Second, s.Fires, s.UserClose = false, 0, false
+			for i := range s.Calls {
+				s.Calls[i].Timeout = "none"
+			}
+			o := runFlush(t, s, nil)
+			defer o.w.close()
+			st.eval()
+			e2TraceHash(st, o.w)
+			if sig, msg := judgeFlush(s, o); sig != "" {
+				vReport(vViolation{Property: "C04", Slot: "rapid:C04", Signature: sig, Message: msg, Replay: e2Replay{Scenario: s, Strategy: o.w.strategy, Decisions: o.w.trace(), TraceTail: o.w.describeTrace(40)}})
+				t.Fatalf("C04 violated [%s]: %s\nscenario: %+v", sig, msg, s)
+			}
+			st.class("write-direction")
+			if o.waited {
+				st.class("nontrivial")
+				if st.nontrivial(fmt.Sprintf("%+v|%d", s, len(o.w.s.Trace))) {
+					st.sample(map[string]interface{}{"direction": "write", "scenario": s, "received": len(o.received), "steps": len(o.w.s.Trace)})
+				}
+			}
+			return
+		}
+		s := genReadScn(t, excl)
+		s.Fires, s.UserClose = 0, false
+		for i := range s.Calls {
+			s.Calls[i].Timeout = "none"
+			if rapid.Bool().Draw(t, "bigger") && s.Calls[i].Op != "rbyte" {
+				s.Calls[i].N = rapid.IntRange(1, 9000).Draw(t, "n")
+			}
+		}
+		// re-plan the peer's chunks for the (possibly larger) needs
+		total := 0
+		for _, c := range s.Calls {
+			if c.Op != "peek" {
+				total += c.N
+			}
+		}
+		s.Peer = nil
+		left := total + rapid.IntRange(0, 3).Draw(t, "extra")
+		for left > 0 && len(s.Peer) < 8 {
+			k := rapid.OneOf(rapid.IntRange(1, left), rapid.Just(left), rapid.IntRange(1, 64)).Draw(t, "chunk")
+			if k > left {
+				k = left
+			}
+			s.Peer = append(s.Peer, peerAct{Op: "write", N: k})
+			left -= k
+		}
+		if left > 0 {
+			s.Peer = append(s.Peer, peerAct{Op: "write", N: left})
+		}
+		if rapid.Bool().Draw(t, "peerclose") {
+			s.Peer = append(s.Peer, peerAct{Op: "close"})
+		}
+		o := runRead(t, s, nil)
+		defer o.w.close()
+		st.eval()
+		e2TraceHash(st, o.w)
+		if sig, msg := judgeRead(s, o); sig != "" {
+			vReport(vViolation{Property: "C04", Slot: "rapid:C04", Signature: sig, Message: msg, Replay: e2Replay{Scenario: s, Strategy: o.w.strategy, Decisions: o.w.trace(), Events: o.w.names(), TraceTail: o.w.describeTrace(40)}})
+			t.Fatalf("C04 violated [%s]: %s\nscenario: %+v", sig, msg, s)
+		}
+		st.class("read-direction")
+		blockedOnce := false
+		for _, e := range o.w.s.Trace {
+			if e.Actor == 1 && (e.Kind == "recv" || e.Kind == "select") {
+				blockedOnce = true
+			}
+		}
+		if blockedOnce {
+			st.class("nontrivial")
+			if st.nontrivial(fmt.Sprintf("%+v|%v", s, o.w.names())) {
+				st.sample(map[string]interface{}{"direction": "read", "scenario": s, "events": o.w.names()})
+			}
+		}
+	})
+}
